@@ -22,7 +22,18 @@
 #include "babylon/anyflow/builder.cpp"
 #include "babylon/anyflow/closure.cpp"
 #include "babylon/anyflow/data.cpp"
+// GraphDependency::ready decrements _waiting_num and only afterwards stores _established (a plain store inside
+// check_established()); there is no atomic operation in between, so the scheduler could never pre-empt inside that
+// window.  Every call of check_established() in dependency.cpp is routed through a hook that is a scheduling point.
+namespace babylon { namespace anyflow {
+static inline bool c05_check_established_hook(GraphDependency* d) noexcept {
+  ::verif::point(::verif::K_USER, 0, d, "check_established", 0);
+  return d->check_established();
+}
+} }
+#define check_established() c05_check_established_hook(this)
 #include "babylon/anyflow/dependency.cpp"
+#undef check_established
 #include "babylon/anyflow/executor.cpp"
 #include "babylon/anyflow/graph.cpp"
 #include "babylon/anyflow/vertex.cpp"
